@@ -204,6 +204,31 @@ class C15(Harness):
                 col.append(pd.Series(v, index=range(i, i + nt)))
             offs[nm] = col
         out["offset_labels"] = {"2d": canon("2d", dp.from_nested_to_2d_array(offs))[0], "3d": canon("3d", dp.from_nested_to_3d_numpy(offs))[0]}
+        # ... and Series cells whose integer time labels run backwards: the order of the observations is the order in the cell
+        desc = pd.DataFrame()
+        for j, nm in enumerate(names):
+            col = []
+            for i in range(ni):
+                v = np.empty(nt, dtype=object if sym else cdt)
+                for t in range(nt):
+                    v[t] = x[i][j][t]
+                col.append(pd.Series(v, index=list(range(nt - 1, -1, -1))))
+            desc[nm] = col
+        try:
+            mi_d = dp.from_nested_to_multi_index(desc, instance_index="instance", time_index="timepoints")
+            out["descending_labels"] = {"mi": canon("mi", mi_d)[0], "3d": canon("3d", dp.from_nested_to_3d_numpy(desc))[0]}
+        except Exception as e:  # noqa
+            if type(e).__module__.startswith("vf."):
+                raise
+            out["descending_labels"] = {"error": "%s: %s" % (type(e).__name__, str(e)[:60])}
+        # column names handed over as a pandas Index (the natural round trip: column_names=X.columns)
+        try:
+            ni_ = dp.from_3d_numpy_to_nested(arr3(), column_names=pd.Index(names))
+            out["names_as_index"] = {"vals": canon("nested", ni_)[0], "cols": [str(c) for c in ni_.columns]}
+        except Exception as e:  # noqa
+            if type(e).__module__.startswith("vf."):
+                raise
+            out["names_as_index"] = {"error": "%s: %s" % (type(e).__name__, str(e)[:60])}
         if nc >= 2:
             # a long table whose integer variable identifiers do not sort alike as numbers and as text (2, 10, 100),
             # rows in shuffled order: variables come back ordered by identifier
@@ -313,6 +338,18 @@ class C15(Harness):
                             P.eq("cell-preserved", vals[i][0][t], md["counts"][i][t], d)
                             for j in range(1, nc):
                                 P.eq("cell-preserved", vals[i][j][t], inp["xm"][i][j][t], d)
+        for key, what in (("descending_labels", "nested(time labels running backwards)"), ("names_as_index", "3d->nested(column_names=Index)")):
+            r_ = out.get(key)
+            if r_ is None:
+                continue
+            if "error" in r_:
+                P.check("cell-preserved", False, {"path": what, "error": r_["error"]})
+                continue
+            for sub, vals_ in r_.items():
+                if sub == "cols":
+                    P.check("column-names-preserved", vals_ == names, {"path": what, "cols": vals_})
+                else:
+                    same(vals_, "cell-preserved", None, {"path": "%s->%s" % (what, sub)})
         if "table_back" in out:
             tb = out["table_back"]
             same(tb["vals"], "cell-preserved", None, {"path": "nested->2d->nested(index=labels)"})
